@@ -36,6 +36,29 @@ func genC16() *rapid.Generator[*Spec] {
 		for i := 0; i < nb; i++ {
 			s.Blank = append(s.Blank, []string{"example.com/m/blank", "example.org/ext/blank2"}[i])
 		}
+		if rapid.IntRange(0, 99).Draw(t, "copieddecl") < 50 {
+			// a declaration Wire copies into its output, with several distinct
+			// locals that all collide with the name an import takes there
+			var b strings.Builder
+			fmt.Fprintf(&b, "//go:build wireinject\n\npackage %s\n\nimport (\n\tzzp \"path\"\n\tzzs \"strings\"\n)\n\nfunc ZzCopied(zzv []string) string {\n\tzzout := \"\"\n", s.Pkgs[0].Name)
+			n := rapid.IntRange(2, 6).Draw(t, "locals")
+			for i := 0; i < n; i++ {
+				name := rapid.SampledFrom([]string{"path", "strings"}).Draw(t, "local")
+				switch rapid.IntRange(0, 3).Draw(t, "scope") {
+				case 0:
+					fmt.Fprintf(&b, "\t{\n\t\t%s := zzp.Join(\"a\", zzs.ToUpper(\"b%d\"))\n\t\tzzout += %s\n\t}\n", name, i, name)
+				case 1:
+					fmt.Fprintf(&b, "\tfor _, %s := range zzv {\n\t\tzzout += zzs.TrimSpace(%s) + zzp.Base(\"c%d\")\n\t}\n", name, name, i)
+				case 2:
+					fmt.Fprintf(&b, "\tif %s := zzs.Repeat(\"d\", %d); %s != \"\" {\n\t\tzzout += zzp.Clean(%s)\n\t}\n", name, i+1, name, name)
+				case 3:
+					fmt.Fprintf(&b, "\tzzout += func(%s string) string { return zzp.Ext(%s) + zzs.ToLower(\"E%d\") }(zzout)\n", name, name, i)
+				}
+			}
+			b.WriteString("\treturn zzout\n}\n")
+			s.Extra = b.String()
+			s.Note = strings.TrimSpace(s.Note + " copied-decl")
+		}
 		s.Note = strings.TrimSpace(s.Note + " C16")
 		return s
 	})
@@ -87,7 +110,6 @@ var companionValues = func() string {
 	}
 	return b.String()
 }()
-
 
 const companionZZZ = `//go:build wireinject
 
@@ -155,6 +177,12 @@ func c16Layout(s *Spec, files map[string]string, marker, base, layout string) (r
 		extDir = filepath.Join(base, "gp", "src", "example.org", "ext")
 		wireDir = filepath.Join(base, "gp", "src", "github.com", "google", "wire")
 		env = []string{"GO111MODULE=off", "GOPATH=" + filepath.Join(base, "gp")}
+	case "srcvendor":
+		// GOPATH-wide vendor directory: $GOPATH/src/vendor/<path>
+		modRoot = filepath.Join(base, "gps", "src", "example.com", "m")
+		extDir = filepath.Join(base, "gps", "src", "vendor", "example.org", "ext")
+		wireDir = filepath.Join(base, "gps", "src", "vendor", "github.com", "google", "wire")
+		env = []string{"GO111MODULE=off", "GOPATH=" + filepath.Join(base, "gps")}
 	case "vendor":
 		modRoot = filepath.Join(base, "gpv", "src", "example.com", "m")
 		extDir = filepath.Join(modRoot, "vendor", "example.org", "ext")
@@ -208,7 +236,7 @@ func c16Eval(c *Ctx) func([]*Spec) []c16Obs {
 			o.Base = []string{base}
 			name := s.ProgName()
 			full := "example.com/m/progs/" + name
-			for _, layout := range []string{"mod", "mod-deep", "gopath", "vendor"} {
+			for _, layout := range []string{"mod", "mod-deep", "gopath", "vendor", "srcvendor"} {
 				root, env, outPath, err := c16Layout(s, files, string(marker), filepath.Join(base, layout), layout)
 				if err != nil {
 					o.Status = "layout: " + err.Error()
@@ -317,7 +345,7 @@ func judgeC16(c *Ctx, s *Spec, o c16Obs, count bool) *Fail {
 func init() {
 	Register(&Property{
 		ID: "C16", Level: "exploration",
-		Rule:        "accepted WF programs (up to 14 type nodes, 1-4 packages, 40% under adversarial names incl. equal package names, 0-2 blank imports) whose dependency packages carry external import paths, rendered into 4 layouts {module checkout, module checkout at a deeper path, GOPATH (GO111MODULE=off), GOPATH with the dependencies and the wire package under vendor/} x 9 invocations {relative pattern from the module root, `.` in the package directory, default-command form, full import path, together with a companion package that sorts before it and has a blank import, companions in other orders, ./progs/..., and two repetitions}; 36 wire processes per program. Oracle: every configuration succeeds and writes bytes identical to the canonical one; the output contains neither the workspace path nor a vendor/ segment. evaluations = wire invocations. Non-trivial = program whose output imports >=3 packages, has >=2 value variables, or blank imports; distinct by program hash.",
+		Rule:        "accepted WF programs (up to 14 type nodes, 1-4 packages, 40% under adversarial names incl. equal package names, 0-2 blank imports) whose dependency packages carry external import paths, half of them carrying a copied declaration with 2-6 distinct locals that collide with import names, rendered into 5 layouts {module checkout, module checkout at a deeper path, GOPATH (GO111MODULE=off), GOPATH with the dependencies and the wire package under the project's vendor/, GOPATH with them under the GOPATH-wide $GOPATH/src/vendor} x 10 invocations {relative pattern from the module root, `.` in the package directory, default-command form, full import path, together with a companion package that sorts before it and has a blank import, companions in other orders, ./progs/..., and two repetitions}; 50 wire processes per program. Oracle: every configuration succeeds and writes bytes identical to the canonical one; the output contains neither the workspace path nor a vendor/ segment. evaluations = wire invocations. Non-trivial = program whose output imports >=3 packages, has >=2 value variables, or blank imports; distinct by program hash.",
 		Assumptions: []string{"the canonical output is produced by the same binary (metamorphic relation across configurations)", "map-iteration nondeterminism is sampled by 3 repetitions per layout in fresh processes, not excluded"},
 		Shards: func(tier string) int {
 			if tier == "thorough" {
